@@ -503,3 +503,315 @@ Proof.
   exists eaddr, sig, gs, a. apply reach_is_run in H2. rewrite H2. cbn [fst]. auto.
 Qed.
 End V.
+
+(* ================================================================== extension X5: the receive / dispatch loop of p2p.Run
+   (model.P2PVerify.p2p_dispatch / loop_step / loop_run; executed for real by harness/p2p_run) *)
+
+(* facts about the extracted shape of the loop: each breaks when the source changes in a way that matters *)
+Lemma loopback_guard_on : p2p_loop_loopback_guard = true. Proof. reflexivity. Qed.
+Lemma loop_hb_flag_is_parameter f : p2p_loop_hb_disable f = f. Proof. reflexivity. Qed.
+
+Lemma with_tbl_id st : with_tbl st (n_tbl st) = st.
+Proof. destruct st as [g t]. reflexivity. Qed.
+
+Section L.
+Variable recover : bytes -> bytes -> option bytes.
+Variable keccak : bytes -> bytes.
+Variable decode_hb : bytes -> option Z.
+Variable decode_req : bytes -> bool.
+Context {O V : Type}.
+
+Notation process_heartbeat := (P2PVerify.process_heartbeat recover keccak decode_hb).
+Notation process_obsreq := (P2PVerify.process_obsreq recover keccak decode_req).
+Notation gossip_step := (P2PVerify.gossip_step recover keccak decode_hb decode_req).
+Notation gossip_run := (P2PVerify.gossip_run recover keccak decode_hb decode_req).
+Notation dispatch := (@P2PVerify.p2p_dispatch recover keccak decode_hb decode_req O V).
+Notation lstep := (@P2PVerify.loop_step recover keccak decode_hb decode_req O V).
+Notation lrun := (@P2PVerify.loop_run recover keccak decode_hb decode_req O V).
+Notation hb_valid := (hb_valid recover keccak).
+Notation req_valid := (req_valid recover keccak).
+
+(* ---- one iteration *)
+Lemma dispatch_invalid disable self t gs from : dispatch disable self t gs from MInvalid = (t, []).
+Proof. reflexivity. Qed.
+
+Lemma dispatch_unknown disable self t gs from : dispatch disable self t gs from MUnknown = (t, []).
+Proof. unfold P2PVerify.p2p_dispatch. destruct (p2p_loop_loopback_guard && bytes_eqb from self); reflexivity. Qed.
+
+(* an envelope published by the node itself has no effect, whatever it contains *)
+Lemma dispatch_loopback disable self t gs m : dispatch disable self t gs self m = (t, []).
+Proof.
+  unfold P2PVerify.p2p_dispatch. rewrite loopback_guard_on, bytes_eqb_refl. cbn [andb]. destruct m; reflexivity.
+Qed.
+
+(* observations and signed VAAs are handed on exactly as received, with or without a guardian set *)
+Lemma dispatch_obs disable self t gs from o : from <> self -> dispatch disable self t gs from (MObservation o) = (t, [OutObs o]).
+Proof.
+  intros Hn. unfold P2PVerify.p2p_dispatch. destruct (bytes_eqb_spec from self) as [E|_]; [contradiction|]. rewrite andb_false_r. reflexivity.
+Qed.
+
+Lemma dispatch_vaa disable self t gs from v : from <> self -> dispatch disable self t gs from (MSignedVaa v) = (t, [OutVaa v]).
+Proof.
+  intros Hn. unfold P2PVerify.p2p_dispatch. destruct (bytes_eqb_spec from self) as [E|_]; [contradiction|]. rewrite andb_false_r. reflexivity.
+Qed.
+
+(* every iteration is one of five things: nothing; observation handed on; VAA handed on; a request that passed the
+   request verifier under the set in force forwarded; a heartbeat that the heartbeat verifier accepted under the set in force stored *)
+Inductive dispatch_kind (disable : bool) (self : peerid) (t : table) (gs : option (list gaddr)) (from : peerid) (m : gossip_msg O V)
+  : table * list (chan_out O V) -> Prop :=
+| DkNothing : dispatch_kind disable self t gs from m (t, [])
+| DkObs o : m = MObservation o -> from <> self -> dispatch_kind disable self t gs from m (t, [OutObs o])
+| DkVaa v : m = MSignedVaa v -> from <> self -> dispatch_kind disable self t gs from m (t, [OutVaa v])
+| DkReq eaddr r sig g a : m = MObsReq eaddr r sig -> from <> self -> gs = Some g -> req_valid g eaddr r sig a -> decode_req r = true ->
+    dispatch_kind disable self t gs from m (t, [OutReq r])
+| DkHb eaddr hb sig g t' v : m = MHeartbeat eaddr hb sig -> from <> self -> gs = Some g ->
+    process_heartbeat g t from eaddr hb sig (p2p_loop_hb_disable disable) = (t', HOk v) ->
+    dispatch_kind disable self t gs from m (t', []).
+
+Lemma dispatch_classified disable self t gs from m : dispatch_kind disable self t gs from m (dispatch disable self t gs from m).
+Proof.
+  destruct (bytes_eqb_spec from self) as [->|Hn]; [rewrite dispatch_loopback; constructor|].
+  destruct m as [|eaddr hb sig|o|v|eaddr req sig|].
+  - rewrite dispatch_invalid. constructor.
+  - unfold P2PVerify.p2p_dispatch. destruct (bytes_eqb_spec from self) as [E|_]; [contradiction|]. rewrite andb_false_r.
+    destruct gs as [g|]; [|constructor].
+    destruct (process_heartbeat g t from eaddr hb sig (p2p_loop_hb_disable disable)) as [t' [e|v]] eqn:Ep; cbn [fst].
+    + apply heartbeat_error_no_effect in Ep. subst t'. constructor.
+    + eapply DkHb; [reflexivity|exact Hn|reflexivity|exact Ep].
+  - rewrite dispatch_obs by exact Hn. eapply DkObs; [reflexivity|exact Hn].
+  - rewrite dispatch_vaa by exact Hn. eapply DkVaa; [reflexivity|exact Hn].
+  - unfold P2PVerify.p2p_dispatch. destruct (bytes_eqb_spec from self) as [E|_]; [contradiction|]. rewrite andb_false_r.
+    destruct gs as [g|]; [|constructor].
+    destruct (process_obsreq g eaddr req sig) as [e|r] eqn:Ep; [constructor|].
+    apply obsreq_iff in Ep as (-> & Hd & a & Hv). eapply DkReq; [reflexivity|exact Hn|reflexivity|exact Hv|exact Hd].
+  - rewrite dispatch_unknown. constructor.
+Qed.
+
+(* consequences, in the form the property uses *)
+Lemma dispatch_req_only_verified disable self t gs from m r :
+  In (OutReq r) (snd (dispatch disable self t gs from m)) ->
+  exists eaddr sig g a, m = MObsReq eaddr r sig /\ from <> self /\ gs = Some g /\ req_valid g eaddr r sig a /\ decode_req r = true.
+Proof.
+  intros Hin. destruct (dispatch_classified disable self t gs from m) as [|o Em Hn|v Em Hn|eaddr r0 sig g a Em Hn Eg Hv Hd|eaddr hb sig g t' v Em Hn Eg Ep];
+    cbn [snd] in Hin.
+  - destruct Hin.
+  - destruct Hin as [E|[]]. discriminate E.
+  - destruct Hin as [E|[]]. discriminate E.
+  - destruct Hin as [E|[]]. inversion E; subst r0. exists eaddr, sig, g, a. auto.
+  - destruct Hin.
+Qed.
+
+Lemma dispatch_table_only_verified disable self t gs from m :
+  fst (dispatch disable self t gs from m) = t \/
+  exists eaddr hb sig g v, m = MHeartbeat eaddr hb sig /\ from <> self /\ gs = Some g /\
+    process_heartbeat g t from eaddr hb sig (p2p_loop_hb_disable disable) = (fst (dispatch disable self t gs from m), HOk v).
+Proof.
+  destruct (dispatch_classified disable self t gs from m) as [|o Em Hn|v Em Hn|eaddr r0 sig g a Em Hn Eg Hv Hd|eaddr hb sig g t' v Em Hn Eg Ep];
+    cbn [fst]; auto.
+  right. exists eaddr, hb, sig, g, v. auto.
+Qed.
+
+(* without a guardian set: the table is untouched and the only outputs are handed-on observations / VAAs *)
+Lemma dispatch_no_set disable self t from m :
+  fst (dispatch disable self t None from m) = t /\
+  (snd (dispatch disable self t None from m) = [] \/
+   (exists o, m = MObservation o /\ snd (dispatch disable self t None from m) = [OutObs o]) \/
+   (exists v, m = MSignedVaa v /\ snd (dispatch disable self t None from m) = [OutVaa v])).
+Proof.
+  destruct (dispatch_classified disable self t None from m) as [|o Em Hn|v Em Hn|eaddr r0 sig g a Em Hn Eg Hv Hd|eaddr hb sig g t' v Em Hn Eg Ep];
+    cbn [fst snd]; try discriminate; (split; [reflexivity|]); [left; reflexivity|right; left; exists o; auto|right; right; exists v; auto].
+Qed.
+
+(* ---- histories of loop iterations interleaved with set changes, local requests, cleanup ticks, own heartbeats *)
+Lemma loop_step_recv disable self st from m :
+  lstep disable self st (LRecv from m) =
+  (with_tbl st (fst (dispatch disable self (n_tbl st) (n_gs st) from m)), snd (dispatch disable self (n_tbl st) (n_gs st) from m)).
+Proof. cbn [P2PVerify.loop_step]. destruct (dispatch disable self (n_tbl st) (n_gs st) from m). reflexivity. Qed.
+
+Lemma loop_step_ignored disable self st from m : m = MInvalid \/ m = MUnknown \/ from = self -> lstep disable self st (LRecv from m) = (st, []).
+Proof.
+  intros H. rewrite loop_step_recv.
+  assert (E : dispatch disable self (n_tbl st) (n_gs st) from m = (n_tbl st, [])).
+  { destruct H as [->|[->| ->]]; [apply dispatch_invalid|apply dispatch_unknown|apply dispatch_loopback]. }
+  rewrite E. cbn [fst snd]. rewrite with_tbl_id. reflexivity.
+Qed.
+
+Lemma loop_step_gs disable self st e :
+  n_gs (fst (lstep disable self st e)) = match e with LSetGS ks => Some ks | _ => n_gs st end.
+Proof.
+  destruct e as [from m|ks|r|now|a p v]; [rewrite loop_step_recv| | | |]; cbn [P2PVerify.loop_step fst with_tbl n_gs]; try reflexivity.
+  destruct (set_heartbeat (n_tbl st) a p v); reflexivity.
+Qed.
+
+Lemma loop_run_cons disable self st e es :
+  lrun disable self st (e :: es) =
+  (fst (lrun disable self (fst (lstep disable self st e)) es), snd (lstep disable self st e) :: snd (lrun disable self (fst (lstep disable self st e)) es)).
+Proof. cbn [P2PVerify.loop_run]. destruct (lstep disable self st e) as [st1 o1]. cbn [fst snd]. destruct (lrun disable self st1 es). reflexivity. Qed.
+
+(* the i-th output list is the output of the i-th event in the state reached by the events before it *)
+Lemma loop_run_nth disable self es : forall st i outs,
+  nth_error (snd (lrun disable self st es)) i = Some outs ->
+  exists e, nth_error es i = Some e /\ outs = snd (lstep disable self (fst (lrun disable self st (firstn i es))) e).
+Proof.
+  induction es as [|e es IH]; intros st i outs Hn.
+  - destruct i; discriminate Hn.
+  - rewrite loop_run_cons in Hn. cbn [snd] in Hn. destruct i as [|i].
+    + cbn [nth_error] in Hn. inversion Hn; subst outs. exists e. split; reflexivity.
+    + cbn [nth_error] in Hn. destruct (IH _ _ _ Hn) as (e' & H1 & H2). exists e'. split; [exact H1|].
+      cbn [firstn]. rewrite loop_run_cons. cbn [fst]. exact H2.
+Qed.
+
+Lemma loop_no_set_gs disable self es : forall st, (forall ks, ~ In (LSetGS ks) es) -> n_gs (fst (lrun disable self st es)) = n_gs st.
+Proof.
+  induction es as [|e es IH]; intros st Hno; [reflexivity|].
+  rewrite loop_run_cons. cbn [fst]. rewrite IH by (intros ks Hin; apply (Hno ks); right; exact Hin).
+  rewrite loop_step_gs. destruct e as [from m|ks|r|now|a p v]; try reflexivity. exfalso. apply (Hno ks). left; reflexivity.
+Qed.
+
+(* ---- refinement: the loop is the earlier gossip model (gossip_step) on the embedded events *)
+Lemma embed_short self (e : levent O V) : embed self e = [] \/ exists x, embed self e = [x].
+Proof.
+  destruct e as [from m|ks|r|now|a p v]; cbn [embed]; eauto.
+  destruct m; eauto; destruct (p2p_loop_loopback_guard && bytes_eqb from self); eauto.
+Qed.
+
+Lemma loop_step_embed disable self st e :
+  fst (lstep disable self st e) = fst (gossip_run (p2p_loop_hb_disable disable) st (embed self e)).
+Proof.
+  destruct e as [from m|ks|r|now|a p v].
+  - rewrite loop_step_recv. destruct st as [gs t]. cbn [n_tbl n_gs fst].
+    destruct m as [|eaddr hb sig|o|v|eaddr req sig|]; unfold P2PVerify.p2p_dispatch, embed;
+      try (destruct (p2p_loop_loopback_guard && bytes_eqb from self)); cbn [fst P2PVerify.gossip_run]; try reflexivity.
+    + cbn [P2PVerify.gossip_step n_gs n_tbl]. destruct gs as [g|]; [|reflexivity].
+      destruct (process_heartbeat g t from eaddr hb sig (p2p_loop_hb_disable disable)) as [t' [e|v]]; reflexivity.
+    + cbn [P2PVerify.gossip_step n_gs n_tbl]. destruct gs as [g|]; [|reflexivity].
+      destruct (process_obsreq g eaddr req sig); reflexivity.
+  - reflexivity.
+  - reflexivity.
+  - reflexivity.
+  - cbn [P2PVerify.loop_step embed P2PVerify.gossip_run P2PVerify.gossip_step]. destruct (set_heartbeat (n_tbl st) a p v); reflexivity.
+Qed.
+
+Lemma loop_refines disable self es : forall st,
+  fst (lrun disable self st es) = fst (gossip_run (p2p_loop_hb_disable disable) st (flat_map (embed self) es)).
+Proof.
+  induction es as [|e es IH]; intros st; [reflexivity|].
+  rewrite loop_run_cons. cbn [fst flat_map]. rewrite gossip_run_app. rewrite IH, loop_step_embed.
+  destruct (gossip_run (p2p_loop_hb_disable disable) st (embed self e)) as [sa oa]. cbn [fst].
+  destruct (gossip_run (p2p_loop_hb_disable disable) sa (flat_map (embed self) es)) as [sb ob]. reflexivity.
+Qed.
+
+Lemma embed_split self (es : list (levent O V)) : forall pre m post, flat_map (embed self) es = pre ++ m :: post ->
+  exists pe e po, es = pe ++ e :: po /\ embed self e = [m] /\ flat_map (embed self) pe = pre.
+Proof.
+  induction es as [|e es IH]; intros pre m post E.
+  - cbn [flat_map] in E. destruct pre; discriminate E.
+  - cbn [flat_map] in E. destruct (embed_short self e) as [E0|(x & E1)].
+    + rewrite E0 in E. cbn [app] in E. destruct (IH _ _ _ E) as (pe & e' & po & -> & H2 & H3).
+      exists (e :: pe), e', po. split; [reflexivity|]. split; [exact H2|]. cbn [flat_map]. rewrite E0, H3. reflexivity.
+    + rewrite E1 in E. cbn [app] in E. destruct pre as [|y pre].
+      * cbn [app] in E. inversion E; subst x. exists [], e, es. auto.
+      * cbn [app] in E. inversion E as [[Exy Et]]. subst y. destruct (IH _ _ _ Et) as (pe & e' & po & -> & H2 & H3).
+        exists (e :: pe), e', po. split; [reflexivity|]. split; [exact H2|]. cbn [flat_map]. rewrite E1, H3. reflexivity.
+Qed.
+
+Lemma embed_own_inv self (e : levent O V) a p v : embed self e = [GOwn a p v] -> e = LOwn a p v.
+Proof.
+  destruct e as [from m|ks|r|now|a0 p0 v0]; cbn [embed]; try discriminate.
+  - destruct m; try discriminate; destruct (p2p_loop_loopback_guard && bytes_eqb from self); discriminate.
+  - intros E; inversion E; reflexivity.
+Qed.
+
+Lemma embed_hb_inv self (e : levent O V) p eaddr hb sig : embed self e = [GHeartbeat p eaddr hb sig] -> e = LRecv p (MHeartbeat eaddr hb sig) /\ p <> self.
+Proof.
+  destruct e as [from m|ks|r|now|a0 p0 v0]; cbn [embed]; try discriminate.
+  destruct m as [|eaddr0 hb0 sig0|o|v|eaddr0 req0 sig0|]; try discriminate.
+  - rewrite loopback_guard_on. cbn [andb]. destruct (bytes_eqb_spec from self) as [E|Hn]; [discriminate|].
+    intros E; inversion E; subst. split; [reflexivity|exact Hn].
+  - destruct (p2p_loop_loopback_guard && bytes_eqb from self); discriminate.
+Qed.
+
+(* the heartbeat table never exceeds the per-guardian cap, whatever arrives in whatever order *)
+Theorem loop_table_bound disable self es a row :
+  tl_get a (n_tbl (fst (lrun disable self ninit es))) = Some row -> Z.of_nat (length row) <= gst_max_nodes.
+Proof. rewrite loop_refines. apply table_bound. Qed.
+
+(* every entry of the heartbeat table comes from an envelope of the history, received from another peer, that passed the
+   heartbeat verifier under the guardian set in force when it was dispatched (or is one of the node's own heartbeats) *)
+Theorem loop_table_provenance disable self es a row p v :
+  p2p_loop_hb_disable disable = false ->
+  tl_get a (n_tbl (fst (lrun disable self ninit es))) = Some row -> tl_get p row = Some v ->
+  exists pe e po, es = pe ++ e :: po /\
+    (e = LOwn a p v \/
+     exists eaddr sig gs, e = LRecv p (MHeartbeat eaddr (hv_payload v) sig) /\ p <> self /\
+       n_gs (fst (lrun disable self ninit pe)) = Some gs /\ decode_hb (hv_payload v) = Some (hv_ts v) /\
+       hb_valid gs eaddr (hv_payload v) sig a).
+Proof.
+  intros Hd Hg Hp. rewrite loop_refines in Hg.
+  destruct (table_provenance_run recover keccak decode_hb decode_req _ _ _ _ _ _ Hg Hp) as (pre & m & post & E & J).
+  destruct (embed_split self es _ _ _ E) as (pe & e & po & -> & Ee & Epre). exists pe, e, po. split; [reflexivity|].
+  destruct J as [->|(eaddr & sig & gs & -> & Hgs & Hdec & Hv)].
+  - left. apply embed_own_inv in Ee. exact Ee.
+  - right. apply embed_hb_inv in Ee as [-> Hn]. exists eaddr, sig, gs. rewrite loop_refines, Epre. rewrite Hd in Hv. auto.
+Qed.
+
+(* every request that reaches the chain watchers through obsvReqC was either originated locally or arrived from another peer
+   and passed the request verifier under the guardian set in force at that moment *)
+Theorem loop_requests_only_verified disable self es i outs r :
+  nth_error (snd (lrun disable self ninit es)) i = Some outs -> In (OutReq r) outs ->
+  nth_error es i = Some (LLocalReq r) \/
+  exists from eaddr sig gs a, nth_error es i = Some (LRecv from (MObsReq eaddr r sig)) /\ from <> self /\
+    n_gs (fst (lrun disable self ninit (firstn i es))) = Some gs /\ req_valid gs eaddr r sig a /\ decode_req r = true.
+Proof.
+  intros Hn Hin. destruct (loop_run_nth _ _ _ _ _ _ Hn) as (e & He & ->).
+  destruct e as [from m|ks|r0|now|a p v].
+  - rewrite loop_step_recv in Hin. cbn [snd] in Hin.
+    apply dispatch_req_only_verified in Hin as (eaddr & sig & g & a & -> & Hns & Hg & Hv & Hd).
+    right. exists from, eaddr, sig, g, a. auto.
+  - destruct Hin.
+  - destruct Hin as [E|[]]. inversion E; subst r0. left. exact He.
+  - destruct Hin.
+  - cbn [P2PVerify.loop_step] in Hin. destruct (set_heartbeat _ a p v); destruct Hin.
+Qed.
+
+(* what reaches the processor through obsvC / signedInC is exactly what another peer sent, unverified *)
+Theorem loop_passthrough disable self es i outs :
+  nth_error (snd (lrun disable self ninit es)) i = Some outs ->
+  (forall o, In (OutObs o) outs -> exists from, nth_error es i = Some (LRecv from (MObservation o)) /\ from <> self /\ outs = [OutObs o]) /\
+  (forall v, In (OutVaa v) outs -> exists from, nth_error es i = Some (LRecv from (MSignedVaa v)) /\ from <> self /\ outs = [OutVaa v]).
+Proof.
+  intros Hn. destruct (loop_run_nth _ _ _ _ _ _ Hn) as (e & He & ->).
+  destruct e as [from m|ks|r0|now|a p v].
+  - rewrite loop_step_recv. cbn [snd].
+    destruct (dispatch_classified disable self (n_tbl (fst (lrun disable self ninit (firstn i es)))) (n_gs (fst (lrun disable self ninit (firstn i es)))) from m)
+      as [|o Em Hns|v Em Hns|eaddr r0 sig g a Em Hns Eg Hv Hd|eaddr hb sig g t' v Em Hns Eg Ep]; split; intros x Hin; cbn [In] in Hin;
+      try (destruct Hin as [E|[]]; try discriminate E); try destruct Hin.
+    + inversion E; subst x m. exists from. auto.
+    + inversion E; subst x m. exists from. auto.
+  - split; intros x [].
+  - split; intros x [E|[]]; discriminate E.
+  - split; intros x [].
+  - cbn [P2PVerify.loop_step]. destruct (set_heartbeat _ a p v); split; intros x [].
+Qed.
+
+Lemma In_firstn {A} (x : A) n l : In x (firstn n l) -> In x l.
+Proof. intros H. rewrite <- (firstn_skipn n l). apply in_or_app. left; exact H. Qed.
+
+(* with no guardian set ever installed nothing but the hand-on of observations / VAAs (and local requests) happens: no
+   gossip request is forwarded and the table only holds the node's own heartbeats *)
+Theorem loop_no_set disable self es : (forall ks, ~ In (LSetGS ks) es) ->
+  (forall i outs r, nth_error (snd (lrun disable self ninit es)) i = Some outs -> In (OutReq r) outs -> nth_error es i = Some (LLocalReq r)) /\
+  (forall a row p v, tl_get a (n_tbl (fst (lrun disable self ninit es))) = Some row -> tl_get p row = Some v -> In (LOwn a p v) es).
+Proof.
+  intros Hno. split.
+  - intros i outs r Hn Hin. destruct (loop_requests_only_verified _ _ _ _ _ _ Hn Hin) as [H|(from & eaddr & sig & gs & a & _ & _ & Hgs & _)]; [exact H|].
+    rewrite loop_no_set_gs in Hgs by (intros ks Hk; apply (Hno ks); eapply In_firstn; exact Hk). discriminate Hgs.
+  - intros a row p v Hg Hp. rewrite loop_refines in Hg.
+    destruct (table_provenance_run recover keccak decode_hb decode_req _ _ _ _ _ _ Hg Hp) as (pre & m & post & E & J).
+    destruct (embed_split self es _ _ _ E) as (pe & e & po & -> & Ee & Epre).
+    destruct J as [->|(eaddr & sig & gs & -> & Hgs & _)].
+    + apply embed_own_inv in Ee. subst e. apply in_or_app. right. left. reflexivity.
+    + rewrite <- Epre, <- loop_refines in Hgs.
+      rewrite loop_no_set_gs in Hgs by (intros ks Hk; apply (Hno ks); apply in_or_app; left; exact Hk). discriminate Hgs.
+Qed.
+End L.
